@@ -174,6 +174,9 @@ class MetricReceiver(CarbonServerProtocol, TimeoutMixin):
       return
     if datapoint[1] != datapoint[1]:  # filter out NaN values
       return
+    # a NaN or infinite timestamp cannot be stored: treat the datapoint as malformed
+    if datapoint[0] != datapoint[0] or datapoint[0] in (float('inf'), float('-inf')):
+      return
     # use current time if none given: https://github.com/graphite-project/carbon/issues/54
     if datapoint[0] == -1:
       datapoint = (time.time(), datapoint[1])
